@@ -59,3 +59,46 @@ Section Div.
     destruct (read_op i k 64 s); [destruct R as [R _]|destruct R as [e R]]; rewrite R; exact I.
   Qed.
 End Div.
+
+(* Every refinement statement used in C01/C02/C06 implies "Ok or Err": whatever form is proved to refine
+   the specification is thereby proved never to panic or run out of fuel, in either build configuration. *)
+From AxV Require Import AluRmP AluMemP AluImmP Alu32P AluImm32P UnaryP Unary32P TestP AdcP MovImmP SetccP.
+
+Ltac nc_from H :=
+  match type of H with
+  | match ?r with _ => _ end =>
+      destruct r as [? ?|[]]; try contradiction;
+      repeat match goal with
+             | H : _ /\ _ |- _ => destruct H
+             | H : exists _, _ |- _ => destruct H
+             | H : _ \/ _ |- _ => destruct H
+             end; subst; try exact I;
+      match goal with H : ?run = _ |- no_crash (fst ?run) => rewrite H; exact I end
+  end.
+
+Lemma refines_no_crash i s sm run : refines i s sm run -> no_crash (fst run).
+Proof. unfold refines. intros H. nc_from H. Qed.
+Lemma refines32_no_crash i s sm run : refines32 i s sm run -> no_crash (fst run).
+Proof. unfold refines32. intros H. nc_from H. Qed.
+Lemma alu_refines_no_crash i s op run : alu_refines i s op run -> no_crash (fst run).
+Proof. unfold alu_refines. intros H. nc_from H. Qed.
+Lemma alu32_refines_no_crash i s op run : alu32_refines i s op run -> no_crash (fst run).
+Proof. unfold alu32_refines. intros H. nc_from H. Qed.
+Lemma rmw_refines_no_crash i s op run : rmw_refines i s op run -> no_crash (fst run).
+Proof. unfold rmw_refines. intros H. nc_from H. Qed.
+Lemma rmwi_refines_no_crash i s op run : rmwi_refines i s op run -> no_crash (fst run).
+Proof. unfold rmwi_refines. intros H. nc_from H. Qed.
+Lemma rmw32_refines_no_crash i s op run : rmw32_refines i s op run -> no_crash (fst run).
+Proof. unfold rmw32_refines. intros H. nc_from H. Qed.
+Lemma un_refines_no_crash i s op run : un_refines i s op run -> no_crash (fst run).
+Proof. unfold un_refines. intros H. nc_from H. Qed.
+Lemma un32_refines_no_crash i s op run : un32_refines i s op run -> no_crash (fst run).
+Proof. unfold un32_refines. intros H. nc_from H. Qed.
+Lemma test_refines_no_crash i s w run : test_refines i s w run -> no_crash (fst run).
+Proof. unfold test_refines. intros H. nc_from H. Qed.
+Lemma adc_refines_no_crash i s run : adc_refines i s run -> no_crash (fst run).
+Proof. unfold adc_refines. intros H. nc_from H. Qed.
+Lemma xori_refines_no_crash i s run : xori_refines i s run -> no_crash (fst run).
+Proof. unfold xori_refines. intros H. nc_from H. Qed.
+Lemma set_refines_no_crash i s cc0 run : set_refines i s cc0 run -> no_crash (fst run).
+Proof. intros (s' & E & _). rewrite E. exact I. Qed.
